@@ -1,6 +1,8 @@
 package c03
 
 import (
+	"crypto/tls"
+	"crypto/x509"
 	"errors"
 	"fmt"
 	"io"
@@ -17,17 +19,79 @@ import (
 	"github.com/saucelabs/forwarder/verifharness/rig"
 )
 
-// Modes: how the tunnel is routed. A leading "h-" runs the proxy through martian's http.Handler
-// (proxy_handler.go, TestingHTTPHandler) instead of its own connection loop (proxy_conn.go).
-var allModes = []string{"direct", "http", "https", "socks5", "connectfunc", "upgrade", "h-direct", "h-http", "h-upgrade"}
+// Modes: [h-][tls-|rl-]<base>. The base says how the tunnel is routed:
+//
+//	direct      the proxy's own dialer to a raw TCP target
+//	http https socks5   through a scripted upstream proxy (https: the upstream leg is a *tls.Conn)
+//	connectfunc a custom ConnectFunc returning a struct-wrapped connection
+//	connecttls  a custom ConnectFunc returning a *tls.Conn to a TLS target
+//	terminate   direct dial, the CONNECT request carries X-Martian-Terminate-Tls: true and the proxy
+//	            itself speaks TLS to the (TLS) target (proxy_connect.go Connect)
+//	upgrade     HTTP/1.1 Upgrade (101) to a scripted origin (the far leg is net/http's readWriteCloserBody)
+//
+// A leading "h-" runs the proxy through martian's http.Handler (proxy_handler.go, TestingHTTPHandler)
+// instead of its own connection loop (proxy_conn.go). "tls-" puts the proxy's listener behind TLS
+// (Protocol https, self-signed certificate): the scripted client does TLS first, then CONNECT, and the
+// client leg of the tunnel is a *tls.Conn. "rl-" rate-limits the (plain) listener - at a rate no
+// tunnel reaches -, which wraps the client leg into a connection without ReadFrom/WriteTo.
+//
+// io.CopyBuffer only uses the buffer the copier hands it when the source has no WriteTo and the
+// destination no ReadFrom; a bare or conntrack-wrapped TCP leg has them. In the modes for which
+// bothLegsBuffered is true neither leg does, so both copy directions go through the copier's own
+// read-into-buffer / write-from-buffer loop at the same time.
+var allModes = []string{"direct", "http", "https", "socks5", "connectfunc", "upgrade", "h-direct", "h-http", "h-upgrade",
+	"tls-https", "tls-connecttls", "tls-connectfunc", "tls-terminate", "tls-upgrade", "tls-direct",
+	"h-tls-https", "h-tls-connecttls", "rl-connectfunc", "terminate"}
 
 const nSlots = 16
 
-func baseMode(mode string) string { return strings.TrimPrefix(mode, "h-") }
+type modeSpec struct {
+	handler     bool // martian's http.Handler instead of its connection loop
+	tlsListener bool // the proxy listens with TLS
+	rateLimited bool // the proxy's listener is rate-limited (client leg wrapped)
+	base        string
+}
+
+func parseMode(mode string) (m modeSpec) {
+	for {
+		switch {
+		case strings.HasPrefix(mode, "h-"):
+			m.handler, mode = true, mode[2:]
+		case strings.HasPrefix(mode, "tls-"):
+			m.tlsListener, mode = true, mode[4:]
+		case strings.HasPrefix(mode, "rl-"):
+			m.rateLimited, mode = true, mode[3:]
+		default:
+			m.base = mode
+			return m
+		}
+	}
+}
+
+func baseMode(mode string) string { return parseMode(mode).base }
+
+// usesSlots: the far side is one of the env's slot targets (told apart by address, not by name).
+func usesSlots(base string) bool {
+	return base == "direct" || base == "connectfunc" || base == "connecttls" || base == "terminate"
+}
+
+// bothLegsBuffered: neither leg of the tunnel offers io.ReaderFrom / io.WriterTo (see allModes).
+func bothLegsBuffered(mode string) bool {
+	m := parseMode(mode)
+	if !m.tlsListener && !m.rateLimited {
+		return false
+	}
+	switch m.base {
+	case "https", "connecttls", "connectfunc", "terminate", "upgrade":
+		return true
+	}
+	return false
+}
 
 // env is one running proxy configuration with its scripted far ends.
 type env struct {
 	mode   string
+	spec   modeSpec
 	proxy  *rig.Proxy
 	reg    *registry
 	peers  []*rig.Peer
@@ -41,6 +105,8 @@ type env struct {
 	lastCase atomic.Value // *tunnelCase
 	// ConnectFunc hook: connections the custom ConnectFunc handed to the proxy and not yet closed
 	cfOpen atomic.Int64
+	// roots the custom ConnectFunc of "connecttls" verifies the TLS slot targets against
+	slotRoots *x509.CertPool
 }
 
 func (e *env) close() {
@@ -67,7 +133,7 @@ func (t *trackedConn) Close() error {
 }
 
 func newEnv(ctx *core.Ctx, mode string) (*env, error) {
-	e := &env{mode: mode, reg: newRegistry(), promP: prometheus.NewRegistry(), promD: prometheus.NewRegistry()}
+	e := &env{mode: mode, spec: parseMode(mode), reg: newRegistry(), promP: prometheus.NewRegistry(), promD: prometheus.NewRegistry()}
 	ok := false
 	defer func() {
 		if !ok {
@@ -76,7 +142,8 @@ func newEnv(ctx *core.Ctx, mode string) (*env, error) {
 	}()
 	var routes []forwarder.HostPortPair
 	var caFile string
-	bm := baseMode(mode)
+	bm := e.spec.base
+	insecureTargets := false
 	addPeer := func(p *rig.Peer, err error) (*rig.Peer, error) {
 		if err != nil {
 			return nil, err
@@ -85,11 +152,33 @@ func newEnv(ctx *core.Ctx, mode string) (*env, error) {
 		return p, nil
 	}
 	switch bm {
-	case "direct", "connectfunc":
+	case "direct", "connectfunc", "connecttls", "terminate":
+		var ca *rig.CA
+		if bm == "connecttls" || bm == "terminate" {
+			var err error
+			if ca, err = rig.NewCA("verif target CA"); err != nil {
+				return nil, err
+			}
+			e.slotRoots = ca.Pool()
+			// Connect's tls.Client gets the transport's client configuration, which names no server:
+			// crypto/tls refuses to shake hands without a ServerName unless InsecureSkipVerify is set
+			// (without it the proxy answers such a CONNECT with 500)
+			insecureTargets = bm == "terminate"
+		}
 		e.slots = make(chan int, nSlots)
 		for i := 0; i < nSlots; i++ {
 			name := fmt.Sprintf("slot%d", i)
-			p, err := addPeer(rig.NewRawPeer(name, slotHandler(e.reg, name)))
+			var p *rig.Peer
+			var err error
+			if ca != nil {
+				var conf *tls.Config
+				if conf, err = tlsConfigFor(ca, name+".test"); err != nil {
+					return nil, err
+				}
+				p, err = addPeer(rig.NewRawTLSPeer(name, conf, slotHandler(e.reg, name)))
+			} else {
+				p, err = addPeer(rig.NewRawPeer(name, slotHandler(e.reg, name)))
+			}
 			if err != nil {
 				return nil, err
 			}
@@ -141,6 +230,9 @@ func newEnv(ctx *core.Ctx, mode string) (*env, error) {
 			if caFile != "" {
 				tc.CACertFiles = []string{caFile}
 			}
+			if insecureTargets {
+				tc.Insecure = true
+			}
 			tc.DialConfig.PromRegistry = e.promD
 			tc.DialConfig.PromNamespace = "fwd"
 		},
@@ -148,7 +240,13 @@ func newEnv(ctx *core.Ctx, mode string) (*env, error) {
 			cfg.Name = "fwdverif"
 			cfg.PromRegistry = e.promP
 			cfg.PromNamespace = "fwd"
-			cfg.TestingHTTPHandler = strings.HasPrefix(mode, "h-")
+			cfg.TestingHTTPHandler = e.spec.handler
+			if e.spec.tlsListener {
+				cfg.Protocol = forwarder.HTTPSScheme // no certificate configured: self-signed
+			}
+			if e.spec.rateLimited {
+				cfg.ReadLimit, cfg.WriteLimit = 1<<36, 1<<36 // bytes per second
+			}
 			switch bm {
 			case "http":
 				cfg.UpstreamProxy = rig.MustURL("http://upstream.test:3128")
@@ -156,7 +254,7 @@ func newEnv(ctx *core.Ctx, mode string) (*env, error) {
 				cfg.UpstreamProxy = rig.MustURL("https://upstreams.test:3129")
 			case "socks5":
 				cfg.UpstreamProxy = rig.MustURL("socks5://socks.test:1080")
-			case "connectfunc":
+			case "connectfunc", "connecttls":
 				cfg.ConnectFunc = e.connectFunc
 			}
 		},
@@ -169,7 +267,9 @@ func newEnv(ctx *core.Ctx, mode string) (*env, error) {
 	return e, nil
 }
 
-// connectFunc is the custom ConnectFunc: it dials the slot target itself (no forwarder dialer).
+// connectFunc is the custom ConnectFunc: it dials the slot target itself (no forwarder dialer) and
+// hands the proxy a struct wrapper around the TCP connection ("connectfunc") or a *tls.Conn on top of
+// that wrapper ("connecttls": the target speaks TLS; Close of the *tls.Conn closes the wrapper).
 func (e *env) connectFunc(req *http.Request) (*http.Response, io.ReadWriteCloser, error) {
 	host := req.URL.Hostname()
 	var i int
@@ -181,11 +281,22 @@ func (e *env) connectFunc(req *http.Request) (*http.Response, io.ReadWriteCloser
 		return nil, nil, err
 	}
 	e.cfOpen.Add(1)
+	var crw io.ReadWriteCloser = &trackedConn{Conn: c, closed: &e.cfOpen}
+	if e.spec.base == "connecttls" {
+		tconn := tls.Client(crw.(net.Conn), &tls.Config{RootCAs: e.slotRoots, ServerName: host})
+		tconn.SetDeadline(time.Now().Add(10 * time.Second))
+		if err := tconn.Handshake(); err != nil {
+			tconn.Close()
+			return nil, nil, err
+		}
+		tconn.SetDeadline(time.Time{})
+		crw = tconn
+	}
 	res := &http.Response{
 		Status: "200 OK", StatusCode: 200, Proto: req.Proto, ProtoMajor: req.ProtoMajor, ProtoMinor: req.ProtoMinor,
 		Header: http.Header{}, Body: http.NoBody, ContentLength: -1, Request: req,
 	}
-	return res, &trackedConn{Conn: c, closed: &e.cfOpen}, nil
+	return res, crw, nil
 }
 
 // gauge sums the samples of a gauge family of a registry.
@@ -222,7 +333,7 @@ func (e *env) openSockets() (client, target float64, err error) {
 	if client, err = gauge(e.promP, "fwd_listener_cx_active"); err != nil {
 		return
 	}
-	if baseMode(e.mode) == "connectfunc" {
+	if e.spec.base == "connectfunc" || e.spec.base == "connecttls" {
 		return client, float64(e.cfOpen.Load()), nil
 	}
 	target, err = gauge(e.promD, "fwd_dialer_cx_active")
